@@ -805,19 +805,35 @@ def rule_uf(trees):
             else:
                 res.bad("M-UF:union_roots_into:shape", "eqlog-runtime/src/unification.rs:%s" % fn["ln"], "union_roots_into does not assert both arguments are roots and set parents[first] = second")
         if name == "root":
-            # path compression may only re-point an element to something read from `parents` (an ancestor), inside the walk
-            assigns = [x for x in walk(fn["b"]) if kind(x) == "assign" and "self.parents" in expr_str(x["lhs"])]
-            okr = bool(assigns) and all(kind(x["rhs"]) == "index" and expr_str(x["rhs"]["b"]) == "self.parents" for x in assigns)
-            loops = [x for x in walk(fn["b"]) if kind(x) == "while"]
-            okr = okr and len(loops) == 1 and kind(loops[0]["c"]) == "bin" and loops[0]["c"]["op"] == "!="
-            last = stmt_expr(fn["b"]["s"][-1]) if fn["b"]["s"] else None
+            # Path compression may only re-point an element to an ancestor: a value read from `parents`, or the result of a
+            # (recursive) root computation; and the walk must be decided by comparing an element with its parent. Loop
+            # shape (iterative halving, two passes, recursion) is free.
             ps = [p_["p"]["n"] for p_ in fn["params"] if kind(p_) == "param" and kind(p_["p"]) == "pid"]
-            okr = okr and last is not None and ps and expr_str(last) == ps[0]
+            ancestors = set()       # locals holding a value read from parents / a root
+            for x in walk(fn["b"]):
+                if kind(x) == "let" and kind(x["p"]) == "pid" and x["e"] is not None:
+                    e = x["e"]
+                    if (kind(e) == "index" and expr_str(e["b"]) == "self.parents") or (mcall(e) and e["m"] in ("root", "root_const") and expr_str(e["r"]) == "self"):
+                        ancestors.add(x["p"]["n"])
+                if kind(x) == "assign" and kind(x["lhs"]) == "path" and kind(x["rhs"]) == "index" and expr_str(x["rhs"]["b"]) == "self.parents":
+                    ancestors.add(x["lhs"]["p"])
+            assigns = [x for x in walk(fn["b"]) if kind(x) == "assign" and "self.parents" in expr_str(x["lhs"])]
+
+            def ancestor_value(e):
+                if kind(e) == "index" and expr_str(e["b"]) == "self.parents":
+                    return True
+                if mcall(e) and e["m"] in ("root", "root_const") and expr_str(e["r"]) == "self":
+                    return True
+                return kind(e) == "path" and e["p"] in ancestors and e["p"] not in ps
+            okr = all(ancestor_value(x["rhs"]) for x in assigns)
+            cmps = [x for x in walk(fn["b"]) if kind(x) == "bin" and x["op"] in ("!=", "==")
+                    and any(kind(o) == "path" and o["p"] in ancestors or (kind(o) == "index" and expr_str(o["b"]) == "self.parents") for o in (x["lhs"], x["rhs"]))]
+            okr = okr and bool(cmps)
             if okr:
                 res.ok()
             else:
                 res.bad("M-UF:root:compression-target", "eqlog-runtime/src/unification.rs:%s" % fn["ln"],
-                        "Unification::root must walk `while el != parent`, re-point elements only to values read from parents, and return the element it stopped at")
+                        "Unification::root must compare an element with its parent and may re-point elements only to values read from parents or to a computed root")
         if name == "root_const":
             if any(kind(x) == "assign" and "self." in expr_str(x["lhs"]) for x in walk(fn["b"])):
                 res.bad("M-UF:root_const:writes", "eqlog-runtime/src/unification.rs:%s" % fn["ln"], "root_const writes to self")
